@@ -782,6 +782,32 @@ def _refcell_new(eng, m, args, fr, dty):
     return Cell(args[0], 'refcell')
 
 
+# atomics: a cell holding the value; every access is sequentially consistent in the model (one step of the
+# harness's schedule at a time), which is what the orderings used in this crate ask for
+@model(r'^(std::sync::atomic::)?(Atomic::<.*>|AtomicBool|AtomicUsize|AtomicU32|AtomicU64|AtomicI32|AtomicI64|AtomicIsize)::new$')
+def _atomic_new(eng, m, args, fr, dty):
+    return Cell(args[0], 'refcell')
+
+
+@model(r'^(std::sync::atomic::)?(Atomic::<.*>|AtomicBool|AtomicUsize|AtomicU32|AtomicU64|AtomicI32|AtomicI64|AtomicIsize)::(load|store|swap|fetch_add|fetch_sub|into_inner)$')
+def _atomic_op(eng, m, args, fr, dty):
+    c = eng.deref(args[0], fr)
+    if not isinstance(c, Cell):
+        raise Unsupported('atomic op on %r' % (c,))
+    op = m.group(3)
+    old = c.v
+    if op in ('load', 'into_inner'):
+        return old
+    if op == 'store':
+        c.v = args[1]
+        return UNIT
+    if op == 'swap':
+        c.v = args[1]
+        return old
+    c.v = eng.binop('Add' if op == 'fetch_add' else 'Sub', old, args[1])      # wraps, as the atomics do
+    return old
+
+
 @model(r'^RefCell::<.*>::(borrow|borrow_mut)$')
 def _refcell_borrow(eng, m, args, fr, dty):
     c = eng.deref(args[0], fr)
@@ -818,11 +844,14 @@ def _localkey_new(eng, m, args, fr, dty):
 
 def tls_cell(eng, name):
     """the per-path cell behind a thread_local!; initial value from eng.env['tls'][short name] or its initialiser"""
+    th = eng.env.get('thread')
+    short = name.split('::')[-1]
+    if th is not None:
+        name = '%s@thread%s' % (name, th)          # one cell per (thread-local, logical thread)
     if name not in eng.statics:
-        short = name.split('::')[-1]
-        init = eng.env.get('tls', {}).get(short)
+        init = eng.env.get('tls', {}).get(short if th is None else (short, th), eng.env.get('tls', {}).get(short))
         if init is None:
-            init = eng.const(name + '::__RUST_STD_INTERNAL_INIT')
+            init = eng.const(name.split('@thread')[0] + '::__RUST_STD_INTERNAL_INIT')
             if isinstance(init, (FnItem, Opaque)):
                 raise Unsupported('thread-local initialiser of ' + name)
         elif callable(init):
